@@ -521,6 +521,31 @@ fn content_spec(input: &str) -> IResult<&str, model::DeclarationContent<'_>> {
 ///
 /// [\[47\] children](https://www.w3.org/TR/2008/REC-xml-20081126/#NT-children)
 fn children(input: &str) -> IResult<&str, model::DeclarationContentItem<'_>> {
+    let depth = GROUP_DEPTH.with(|d| {
+        d.set(d.get() + 1);
+        d.get()
+    });
+    let result = if depth > MAX_GROUP_DEPTH {
+        Err(nom::Err::Error(nom::error::Error::new(
+            input,
+            ErrorKind::TooLarge,
+        )))
+    } else {
+        children_body(input)
+    };
+    GROUP_DEPTH.with(|d| d.set(d.get() - 1));
+    result
+}
+
+/// Deepest nesting of groups in a content model that is parsed; deeper input is refused with an
+/// error instead of exhausting the stack of the recursive descent.
+pub const MAX_GROUP_DEPTH: usize = 128;
+
+thread_local! {
+    static GROUP_DEPTH: std::cell::Cell<usize> = const { std::cell::Cell::new(0) };
+}
+
+fn children_body(input: &str) -> IResult<&str, model::DeclarationContentItem<'_>> {
     map(
         tuple((group, opt(alt((tag("?"), tag("*"), tag("+")))))),
         |((choice, v), q)| {
